@@ -123,6 +123,9 @@ class Harness(cm.BaseB):
                         continue
                     for ep in ("aspirate_well", "dispense_well") + (("aspirate", "dispense", "transfer_e", "transfer_f", "prep") if cont in ("list", "iter") else ()):
                         yield {"ep": ep, "tip": coll, "cont": cont}
+                        if cont == "iter" and ep in ("aspirate_well", "dispense_well", "prep", "transfer_e"):
+                            # the same while the user has switched the library's loggers to DEBUG
+                            yield {"ep": ep, "tip": coll, "cont": cont, "debuglog": True}
         elif k == "seq":
             f = SYMS[chunk["first"]]
             for n in range(2, chunk.get("maxlen", 3) + 1):
@@ -142,6 +145,11 @@ class Harness(cm.BaseB):
                 for fi, tips in enumerate(forms):
                     for ep in ("evo_aspirate", "evo_dispense", "evo_wash"):
                         yield {"ep": ep, "tip": tips, "form": fi}
+                if len(members) >= 2:
+                    # tips and wells both listed in descending order (the same permutation of both)
+                    for ep in ("evo_aspirate", "evo_dispense"):
+                        yield {"ep": ep, "tip": list(reversed(members)), "form": 2, "wells_rev": True}
+                        yield {"ep": ep, "tip": members[1:] + members[:1], "form": 0, "wells_rot": True}
                 # tip numbers given as members of a user's own IntEnum
                 for ep in ("evo_aspirate", "evo_dispense", "evo_wash"):
                     yield {"ep": ep, "tip": members, "form": 0, "ienum": True}
@@ -219,6 +227,24 @@ class Harness(cm.BaseB):
         return "mutate:ok", repr(case), V
 
     def one(self, case):
+        if case.get("debuglog"):
+            import logging
+
+            lg = logging.getLogger("robotools")
+            old, oldp = lg.level, lg.propagate
+            disabled = logging.root.manager.disable
+            logging.disable(logging.NOTSET)  # (the framework silences the library's log output globally)
+            h = logging.NullHandler()
+            lg.addHandler(h)
+            lg.setLevel(logging.DEBUG)
+            lg.propagate = False
+            try:
+                return self.one(dict((k, v) for k, v in case.items() if k != "debuglog"))
+            finally:
+                lg.setLevel(old)
+                lg.propagate = oldp
+                lg.removeHandler(h)
+                logging.disable(disabled)
         if case.get("k") == "mutate":
             return self.one_mutate(case)
         ep = case["ep"]
@@ -296,6 +322,10 @@ class Harness(cm.BaseB):
         invalid = case.get("invalid", False)
         n = len(tips)
         wells = [f"{'ABCDEFGHIJKLMNOP'[i]}01" for i in range(n)]
+        if case.get("wells_rev"):
+            wells = wells[::-1]
+        if case.get("wells_rot"):
+            wells = wells[1:] + wells[:1]
         vols = [10.0 + i for i in range(n)]
         maxv = float("nan")
         if case.get("form") in (2, 4):
